@@ -110,7 +110,7 @@ impl WalRunner {
             let snaps = snaps.clone();
             let (dp, wp) = (dp.clone(), wp.clone());
             agdb::verif::set_fs_hook(Some(Box::new(move |file, op, pos, bytes| {
-                if op == "read_locked" {
+                if op == "read_locked" || op == "read_seeked" {
                     return;
                 }
                 snaps.borrow_mut().push(Snap {
